@@ -66,3 +66,18 @@ pub fn intercept_wait(
     let hook = *WAIT_HOOK.lock().expect("verif wait hook poisoned");
     hook.map(|f| f(kind, fd, timeout))
 }
+
+thread_local! {
+    static THREAD_STACK_DEPTH: std::cell::Cell<usize> = const { std::cell::Cell::new(0) };
+}
+
+/// Recorded by the plain-thread path of `maybe_grow_with`: number of registered grown segments.
+pub fn note_thread_stack_depth(depth: usize) {
+    THREAD_STACK_DEPTH.with(|d| d.set(depth));
+}
+
+/// The last recorded number of grown stack segments of this thread.
+#[must_use]
+pub fn thread_stack_depth() -> usize {
+    THREAD_STACK_DEPTH.with(std::cell::Cell::get)
+}
